@@ -254,7 +254,7 @@ def compare(a, b, rtol=1e-9, group=None, gfloor=1e-7):
             scale = max(scale, gfloor * gmax.get(group(k), 0.0))
         scale = max(scale, 1e-12)
         err = float(np.max(np.abs(va - vb))) / scale
-        if err > rtol:
+        if not (err <= rtol):
             bad.append((k, err))
     return bad
 
